@@ -115,6 +115,8 @@ type Spec struct {
 	ValWriter         bool `json:"val_writer,omitempty"`           // the output writer is passed as a struct value with a slice field (not comparable, not hashable)
 	NestedPlain       bool `json:"nested_plain,omitempty"`         // with Nested: the inner graph does not buffer: its tasks inherit the outer task's buffer through the context
 	HoldAfterCancelMS int  `json:"hold_after_cancel_ms,omitempty"` // the controller waits this long after the cancellation before it releases the next in-flight attempt
+	Lines             bool `json:"lines,omitempty"`                // buffered runs: the output consists of complete lines (every tag and every 80 filler bytes end in a newline)
+	LimitFirst        int  `json:"limit_first,omitempty"`          // >0: SetMaxParallel(LimitFirst) is called before SetMaxParallel(MaxPar): the limit set last is the one in force
 	Nested            bool `json:"nested,omitempty"`               // buffered runs: the first attempt of task 0 runs a buffered graph of its own (three writing tasks) with the context it was given
 }
 
@@ -617,8 +619,17 @@ func (r *runner) taskFn(i int) getoptions.CommandFn {
 					w = dag.Stderr(ctx)
 				}
 				fmt.Fprintf(w, "<g%d:t%d:%d:%d/%d>", gi, i, attempt, k, n)
+				if r.spec.Lines {
+					w.Write([]byte{'\n'})
+				}
 				if r.spec.ChunkBytes > 0 {
-					w.Write(bytes.Repeat([]byte{'.'}, r.spec.ChunkBytes))
+					filler := bytes.Repeat([]byte{'.'}, r.spec.ChunkBytes)
+					if r.spec.Lines {
+						for j := 79; j < len(filler); j += 80 {
+							filler[j] = '\n'
+						}
+					}
+					w.Write(filler)
 				}
 				runtime.Gosched()
 			}
@@ -765,6 +776,9 @@ func (r *runner) build(gi int, tasks []*dag.Task) *dag.Graph {
 		g.SetSerial()
 	}
 	if r.spec.MaxPar > 0 {
+		if r.spec.LimitFirst > 0 {
+			g.SetMaxParallel(r.spec.LimitFirst) // a default that is overridden afterwards
+		}
 		g.SetMaxParallel(r.spec.MaxPar)
 	}
 	if r.spec.Buffer {
